@@ -53,6 +53,9 @@ func (c CounterStyle) resolveCounter(counterName string, previousTypes utils.Set
 				continue
 			}
 			counter.merge(extendedCounter)
+		} else if system != "decimal" {
+			// an unknown style is treated as decimal
+			extends, system = "extends", "decimal"
 		} else {
 			return &counter
 		}
